@@ -200,7 +200,16 @@ func init() {
 				}
 			}
 			logged := boolEdges(fn, forward(okVals, fwdOpts{noBinOp: true}), true)
-			sites := callsTo(fn, sr)
+			// the update itself, or a helper of the package that returns success only after it
+			sum := newSuccSummary(p, sr)
+			var sites []ssa.CallInstruction
+			eachCall(fn, func(c ssa.CallInstruction) {
+				if f := calleeFunc(c); f != nil && sr[f] {
+					sites = append(sites, c)
+				} else if sc := c.Common().StaticCallee(); sc != nil && len(sc.Blocks) > 0 && fnPkgPath(sc) == fnPkgPath(fn) && sum.wrapper(sc, wrapperDepth) {
+					sites = append(sites, c)
+				}
+			})
 			if len(sites) == 0 {
 				r.missing("pkg/transaction.Commit|ref update", "transaction.Commit contains no ref.SaveRef / CommitHead call")
 				return nil
@@ -1161,6 +1170,27 @@ func init() {
 			}
 			fns := p.FuncsInPkg("pkg/sorter")
 			r.Analysed = len(fns)
+			// constructors: functions of the package that return a *Block they allocate
+			ctors := map[*ssa.Function]bool{}
+			for _, fn := range fns {
+				res := fn.Signature.Results()
+				if res.Len() != 1 {
+					continue
+				}
+				pt, ok := res.At(0).Type().(*types.Pointer)
+				if !ok || !types.Identical(pt.Elem(), blockT) {
+					continue
+				}
+				for _, b := range fn.Blocks {
+					for _, in := range b.Instrs {
+						if a, ok := in.(*ssa.Alloc); ok {
+							if apt, ok := a.Type().(*types.Pointer); ok && types.Identical(apt.Elem(), blockT) {
+								ctors[fn] = true
+							}
+						}
+					}
+				}
+			}
 			for _, fn := range fns {
 				// full-block tests
 				var full []ssa.Value
@@ -1195,12 +1225,20 @@ func init() {
 				n := 0
 				for _, b := range fn.Blocks {
 					for _, in := range b.Instrs {
-						al, ok := in.(*ssa.Alloc)
-						if !ok {
-							continue
+						// a block is created here: a Block literal, or a call of a constructor of
+						// the package (a function returning *Block that builds one)
+						var al ssa.Instruction
+						switch x := in.(type) {
+						case *ssa.Alloc:
+							if pt, ok := x.Type().(*types.Pointer); ok && types.Identical(pt.Elem(), blockT) && !ctors[fn] {
+								al = x
+							}
+						case *ssa.Call:
+							if sc := x.Call.StaticCallee(); sc != nil && ctors[sc] {
+								al = x
+							}
 						}
-						pt, ok := al.Type().(*types.Pointer)
-						if !ok || !types.Identical(pt.Elem(), blockT) {
+						if al == nil {
 							continue
 						}
 						h := enclosingLoop(b)
